@@ -168,6 +168,7 @@ type c15Wire struct {
 	hdrs   map[string][]c15KV
 	fills  map[string]string
 	bodies map[uint32][]byte
+	emptyEnd []int           // unit counts at which a frame with an EMPTY header-block fragment is complete
 	free   bool              // recorded real traffic: header fields are whatever the peers sent
 	sidOf  map[string]uint32 // free: value of the x-call header -> stream id
 }
@@ -176,6 +177,7 @@ type c15Opts struct {
 	rnd       *rand.Rand
 	tableSize int  // dynamic table size of the HPACK encoders (0 = default)
 	pad       bool // use padding / priority where allowed
+	empty     bool // now and then render one fragment of a split header block with no bytes
 }
 
 func c15RstCode(c string) http2.ErrCode {
@@ -220,9 +222,16 @@ func c15Encode(d string, frames []c15Frame, o c15Opts) (*c15Wire, error) {
 			}
 		case 2:
 			if l < 2 {
-				return fmt.Errorf("frame with pu=2 has %d payload bytes", l)
+				// (a header-block fragment may be empty: its two payload units are then empty as well; the caller
+				// keeps such a rendering only if no call ends between the frame's header and its end)
+				if l != 0 {
+					return fmt.Errorf("frame with pu=2 has %d payload bytes", l)
+				}
+				w.ends = append(w.ends, end, end)
+				w.emptyEnd = append(w.emptyEnd, units+2)
+			} else {
+				w.ends = append(w.ends, start+9+1+o.rnd.IntN(l-1), end)
 			}
-			w.ends = append(w.ends, start+9+1+o.rnd.IntN(l-1), end)
 			units += 2
 		default:
 			return fmt.Errorf("unsupported pu=%d", pu)
@@ -276,6 +285,17 @@ func c15Encode(d string, frames []c15Frame, o c15Opts) (*c15Wire, error) {
 				prev = x
 			}
 			parts = append(parts, block[prev:])
+			if o.empty && c >= 1 && o.rnd.IntN(2) == 0 {
+				// RFC 9113 6.10: a header block is a HEADERS frame and any number of CONTINUATION frames; no fragment
+				// has a minimum length, so one of them may carry nothing at all
+				k := o.rnd.IntN(c + 1)
+				if k < c {
+					parts[k+1] = append(append([]byte(nil), parts[k]...), parts[k+1]...)
+				} else {
+					parts[k-1] = append(append([]byte(nil), parts[k-1]...), parts[k]...)
+				}
+				parts[k] = nil
+			}
 			p := http2.HeadersFrameParam{StreamID: f.S, BlockFragment: parts[0], EndStream: f.Es, EndHeaders: f.Eh}
 			if o.pad && o.rnd.IntN(3) == 0 {
 				p.PadLength = uint8(o.rnd.IntN(6))
@@ -668,10 +688,34 @@ func c15Play(scn *c15Scn, vseed uint64) (run *c15Run, wires map[string]*c15Wire,
 		opts.tableSize = 65536
 	}
 	wires = map[string]*c15Wire{}
+	opts.empty = vseed%5 >= 3
 	for _, d := range []string{"req", "resp"} {
 		w, err := c15Encode(d, scn.frames(d), opts)
 		if err != nil {
 			return nil, nil, fmt.Errorf("encode %s: %w", d, err)
+		}
+		if len(w.emptyEnd) > 0 {
+			// The chunking units of the behaviour give a frame's payload two units.  For an empty fragment they are
+			// empty: a call that ends after the frame's header units would, in bytes, already have delivered the whole
+			// frame.  Such a rendering is kept only when no call of this direction ends there.
+			conflict, at := false, 0
+			for _, call := range scn.Calls {
+				if call.E == "" && call.D == d {
+					at += call.U
+					for _, fe := range w.emptyEnd {
+						if at == fe-2 || at == fe-1 {
+							conflict = true
+						}
+					}
+				}
+			}
+			if conflict {
+				o2 := opts
+				o2.empty = false
+				if w, err = c15Encode(d, scn.frames(d), o2); err != nil {
+					return nil, nil, fmt.Errorf("encode %s: %w", d, err)
+				}
+			}
 		}
 		wires[d] = w
 	}
